@@ -4,7 +4,7 @@
 From Coq Require Import List Bool Arith NArith QArith.
 From DV Require Import Common.Res Common.Str Ext.Types Ext.Classes Ext.Seq Ext.Model Ext.Spec
      Ext.ProofsSimplifySeq Ext.ProofsSimplifyLayout Ext.ProofsSimplifyCanon Ext.ProofsCanonSubset
-     Ext.ProofsMergeFrame Ext.ProofsMerge Ext.ProofsCanonMerge Ext.ProofsCanonCorollaries.
+     Ext.ProofsMergeFrame Ext.ProofsMerge Ext.ProofsCanonMerge Ext.ProofsCanonCorollaries Ext.ProofsCanonExamples.
 Import ListNotations.
 Local Open Scope nat_scope.
 
@@ -35,13 +35,26 @@ Theorem C06_is_repeating_spec :
        exists b, is_repeating veqb l p = Ok b /\ (b = true <-> forall i, i < length l -> nth i l d = nth (i mod p) l d)).
 Proof. exact @is_repeating_spec. Qed.
 
-(** non-vacuity: three periods, the defect in the LAST one; the error cases *)
-Example C06_seq_tests_example :
-  is_constant Nat.eqb [1; 1; 2; 2; 3; 4] (Some 2) = Ok false /\ is_constant Nat.eqb [1; 1; 2; 2; 3; 3] (Some 2) = Ok true /\
-  is_constant Nat.eqb [1; 1; 2] (Some 2) = Err EValue /\ is_constant Nat.eqb [1; 1] (Some 1) = Err EValue /\
-  is_repeating Nat.eqb [1; 2; 1; 3; 1; 2] 2 = Ok false /\ is_repeating Nat.eqb [1; 2; 1; 2; 1; 2] 2 = Ok true /\
-  is_repeating Nat.eqb [1; 2] 2 = Err EValue /\ is_repeating Nat.eqb [1; 2; 3] 2 = Err EValue.
-Proof. vm_compute. repeat split; reflexivity. Qed.
+(** non-vacuity ([l_bad] = [1;1;2;2;3;4], [l_rep] = [1;2;1;3;1;2]: three periods, the defect in the last / middle one):
+    the hypotheses of each clause hold and the theorem, APPLIED, gives the verdict *)
+Example C06_is_constant_spec_example :
+  2 <= 2 /\ length l_bad mod 2 = 0 /\ is_constant Nat.eqb l_bad (Some 2) = Ok false /\
+  ~ (forall c k, c < length l_bad / 2 -> k < 2 -> nth (c * 2 + k) l_bad 0 = nth (c * 2) l_bad 0) /\
+  (length [1; 1; 2] mod 2 <> 0 /\ is_constant Nat.eqb [1; 1; 2] (Some 2) = Err EValue) /\
+  (1 <= 1 /\ is_constant Nat.eqb [1; 1] (Some 1) = Err EValue).
+Proof. exact ex_is_constant. Qed.
+
+Example C06_is_constant_none_spec_example :
+  is_constant Nat.eqb l_bad None = Ok false /\
+  ~ (forall i j, i < length l_bad -> j < length l_bad -> nth i l_bad 0 = nth j l_bad 0).
+Proof. exact ex_is_constant_none. Qed.
+
+Example C06_is_repeating_spec_example :
+  2 <= 2 /\ 2 < length l_rep /\ length l_rep mod 2 = 0 /\ is_repeating Nat.eqb l_rep 2 = Ok false /\
+  ~ (forall i, i < length l_rep -> nth i l_rep 0 = nth (i mod 2) l_rep 0) /\
+  (length [1; 2] <= 2 /\ is_repeating Nat.eqb [1; 2] 2 = Err EValue) /\
+  (length [1; 2; 3] mod 2 <> 0 /\ is_repeating Nat.eqb [1; 2; 3] 2 = Err EValue).
+Proof. exact ex_is_repeating. Qed.
 
 (** read through the documented layout: the test [_simplify] runs for a (source, destination) pair of the
     generated tables holds on the stored list iff the destination class can represent the denoted function *)
@@ -51,6 +64,14 @@ Theorem C06_test_reads_representable :
     (representable d dest (fun p => nth (cidx d src p) vs vnone) <->
      forall i j, i < length vs -> j < length vs -> krel k i j -> nth i vs vnone = nth j vs vnone).
 Proof. exact @test_reads_representable. Qed.
+
+(** S = 2, T = 3, V = 2; [vs_vec] = six 7s then six 8s under ('global','slices'): per-vector constant, not constant *)
+Example C06_test_reads_representable_example :
+  ProofsSimplifyLayout.dims_pos (2, 3, 2) /\ test_of (2, 3, 2) GSlices VSamples = Some (KConst 6) /\
+  length vs_vec = mult_spec (2, 3, 2) GSlices /\
+  representable (2, 3, 2) VSamples (fun p => nth (cidx (2, 3, 2) GSlices p) vs_vec 0) /\
+  ~ representable (2, 3, 2) GConst (fun p => nth (cidx (2, 3, 2) GSlices p) vs_vec 0).
+Proof. exact ex_test_reads. Qed.
 
 (** every entry of [_const_tests] / [_repeat_tests] is one of these tests, with the period the code computes *)
 Theorem C06_tables_known :
@@ -67,6 +88,13 @@ Theorem C06_const_period :
     const_period h c d = Ok per ->
     test_of (dims h) c d = Some (match per with None => KAll | Some P => KConst P end).
 Proof. exact @const_period_ok. Qed.
+
+Example C06_const_period_example :
+  hdr_wf ex_h5 /\ class_ok (shape ex_h5) GSlices = true /\ class_ok (shape ex_h5) VSamples = true /\
+  (is_slices GSlices = true -> sdim ex_h5 <> None) /\ is_const_tag (kind_tag GSlices VSamples) = true /\
+  const_period ex_h5 GSlices VSamples = Ok (Some 6) /\
+  test_of (dims ex_h5) GSlices VSamples = Some (KConst 6).
+Proof. exact ex_const_period. Qed.
 
 (** * 2. [_simplify] *)
 (** same denotation, well-formed entry, and the class is the first of [_const_tests[c] ++ _repeat_tests[c] ++ [c]]
@@ -111,6 +139,16 @@ Theorem C06_reach_complete :
               (y = x \/ y = c \/ y = GConst).
 Proof. exact @reach_complete. Qed.
 
+(** a ('vector','slices') list that is in fact constant: ('vector','samples') represents it, is NOT reachable from
+    ('vector','slices'), and a reachable class does at least as well *)
+Example C06_reach_complete_example :
+  ProofsSimplifyLayout.dims_pos (2, 3, 2) /\ representable (2, 3, 2) VSamples (fden 0 (2, 3, 2) VSlices [5; 5; 5; 5; 5; 5]) /\
+  ~ In VSamples (reach VSlices) /\
+  exists y, In y (reach VSlices) /\ pref_rank y <= pref_rank VSamples /\
+            representable (2, 3, 2) y (fden 0 (2, 3, 2) VSlices [5; 5; 5; 5; 5; 5]) /\
+            (y = VSamples \/ y = VSlices \/ y = GConst).
+Proof. exact ex_reach_complete. Qed.
+
 (** the one defective pair of the tables, kept out by [simplify_dom]: ('vector','slices') -> ('time','samples')
     keeps T values where T*V are needed (no public operation reaches it) *)
 Theorem C06_simplify_vslices_tsamples_refuted :
@@ -121,12 +159,19 @@ Theorem C06_simplify_vslices_tsamples_refuted :
     fden 0 (dims h) c' vs' (0, 0, 1) <> fden 0 (dims h) c vs (0, 0, 1).
 Proof. exact simplify_vslices_tsamples_refuted. Qed.
 
-(** non-vacuity: a ('global','slices') key that only depends on the vector index (three periods per test) *)
+(** non-vacuity of C06_simplify_spec / _least / _canon: [ex_h5] = 5-D header, shape (1,1,2,3,2), slice axis 2 (S = 2, T = 3,
+    V = 2); all five hypotheses hold for the ('global','slices') entry [vs_vec]; the theorems, APPLIED, give: well-formed
+    ('vector','samples') [7;8], same denotation, first representing class of the reach list, least rank, canonical *)
 Example C06_simplify_example :
-  simplify_k Nat.eqb 0 ex_h5 (Some (GSlices, [7;7;7;7;7;7; 8;8;8;8;8;8])) = Ok (Some (VSamples, [7; 8])) /\
-  simplify_k Nat.eqb 0 ex_h5 (Some (GSlices, [7;7;7;7;7;7; 8;8;8;8;8;9])) = Ok (Some (GSlices, [7;7;7;7;7;7; 8;8;8;8;8;9])) /\
-  validb (mk_ext ex_h5 [([107]%N, (GSlices, [7;7;7;7;7;7; 8;8;8;8;8;8]))]) = true.
-Proof. vm_compute. repeat split; reflexivity. Qed.
+  hdr_wf ex_h5 /\ hdr_tight ex_h5 /\ entry_ok ex_h5 GSlices vs_vec /\ GSlices <> GConst /\ @simplify_dom ex_h5 GSlices /\
+  simplify_k Nat.eqb 0 ex_h5 (Some (GSlices, vs_vec)) = Ok (Some (VSamples, [7; 8])) /\
+  entry_ok ex_h5 VSamples [7; 8] /\
+  (forall p, in_dims (dims ex_h5) p -> fden 0 (dims ex_h5) VSamples [7; 8] p = fden 0 (dims ex_h5) GSlices vs_vec p) /\
+  pick_spec (reprs 0 ex_h5 GSlices vs_vec) (reach GSlices) (Some VSamples) /\
+  (forall x, In x (reach GSlices) -> class_ok (shape ex_h5) x = true ->
+             representable (dims ex_h5) x (fden 0 (dims ex_h5) GSlices vs_vec) -> pref_rank VSamples <= pref_rank x) /\
+  canon_class (shape ex_h5) (dims ex_h5) (fden 0 (dims ex_h5) VSamples [7; 8]) VSamples.
+Proof. exact ex_simplify. Qed.
 
 (** * 3. Splitting *)
 (** [canonical_mod_none e] = valid, and every key at the canonical class of what it denotes *)
@@ -156,10 +201,13 @@ Theorem C06_subset_canonical_refuted :
     get_subset Nat.eqb 0 e dim idx = Ok r /\ ~ canonical 0 r.
 Proof. exact subset_canonical_refuted. Qed.
 
+(** [ex_e] = shape (1,1,2,2), slice axis 2, k : ('global','slices') [0;1;0;2] (0 plays None); split along time *)
 Example C06_subset_example :
-  exists r, get_subset Nat.eqb 0 ex_e 3 1 = Ok r /\ entries r = [([107]%N, (GSlices, [0; 2]))] /\
-            canonical_mod_none 0 ex_e /\ 1 < nth 3 (shape (hdr_of ex_e)) 0.
-Proof. exact subset_canonical_mod_none_example. Qed.
+  exists r, get_subset Nat.eqb 0 ex_e 3 1 = Ok r /\
+            canonical 0 ex_e /\ valid ex_e /\ nondegenerate ex_e /\ canonical_mod_none 0 ex_e /\
+            1 < nth 3 (shape (hdr_of ex_e)) 0 /\
+            entries r = [(kK, (GSlices, [0; 2]))] /\ canonical_mod_none 0 r.
+Proof. exact ex_subset. Qed.
 
 (** * 4. Merging *)
 (** slice, time or vector axis: inputs in ANY valid nondegenerate classification *)
@@ -207,10 +255,37 @@ Theorem C06_insert_invariant :
     inv_post vnone (with_dim hfull dim (S j)) ks'.
 Proof. exact @insert_k_inv. Qed.
 
+(** three 3-D sources merged along time: 7, 7 (stored per slice: widened), 8 *)
 Example C06_merge_example :
-  exists r, from_sequence Nat.eqb 0 ex_m_es 3 None None = Ok r /\ entries r = [([107]%N, (TSamples, [7; 7; 8]))] /\
-            (forall e, In e ex_m_es -> valid e /\ nondegenerate e /\ shape (hdr_of e) = [1; 1; 2] /\ sdim (hdr_of e) = Some 2).
-Proof. exact merge_canonical_axis_example. Qed.
+  exists r, from_sequence Nat.eqb 0 ex_m_es 3 None None = Ok r /\
+            ex_m_es = ex_m_e0 :: ex_m_rest /\ 1 <= length ex_m_rest /\
+            (forall e, In e ex_m_es -> valid e /\ nondegenerate e /\ shape (hdr_of e) = shape (hdr_of ex_m_e0) /\
+                                       sdim (hdr_of e) = sdim_res ex_m_e0 None) /\
+            axis_of (sdim_res ex_m_e0 None) 3 = Some AxT /\ (3 <= 3 -> sdim_res ex_m_e0 None <> None) /\
+            entries r = [(kK, (TSamples, [7; 7; 8]))] /\
+            canonical_mod_none 0 r.
+Proof. exact ex_merge. Qed.
+
+(** two canonical sources merged along a non-slice spatial axis *)
+Example C06_merge_canonical_nonslice_example :
+  exists r, from_sequence Nat.eqb 0 [ex_e; ex_e] 0 None None = Ok r /\
+            1 <= length [ex_e] /\
+            (forall e, In e [ex_e; ex_e] -> canonical_mod_none 0 e /\ shape (hdr_of e) = shape (hdr_of ex_e) /\
+                                           sdim (hdr_of e) = sdim_res ex_e None) /\
+            0 < 3 /\ sdim_res ex_e None <> Some 0 /\
+            entries r = [(kK, (GSlices, [0; 1; 0; 2]))] /\ shape (hdr_of r) = [2; 1; 2; 2] /\ canonical_mod_none 0 r.
+Proof. exact ex_merge_nonslice. Qed.
+
+(** one insert inside that time merge ([ex_m_full] = header of the result): constant 7 so far, the next source says 8 *)
+Example C06_insert_invariant_example :
+  frame ex_m_full [1; 1; 2] 3 3 /\ inp ex_m_full [1; 1; 2] ex_m_h /\ 1 <= 1 /\
+  axis_of (sdim ex_m_full) 3 = Some AxT /\ (3 <= 3 -> sdim ex_m_full <> None) /\
+  pre_ax 0 AxT (with_dim ex_m_full 3 1) (init_k ex_m_full ex_m_h (Some (GConst, [7]))) /\
+  ProofsMergeDen.good_k ex_m_h (Some (GConst, [8])) /\ ProofsMergeDen.nondeg_k ex_m_h (Some (GConst, [8])) /\
+  insert_k Nat.eqb 0 (with_dim ex_m_full 3 1) ex_m_h 3 (init_k ex_m_full ex_m_h (Some (GConst, [7]))) (Some (GConst, [8]))
+    = Ok (Some (TSamples, [7; 8])) /\
+  inv_post 0 (with_dim ex_m_full 3 2) (Some (TSamples, [7; 8])).
+Proof. exact ex_insert. Qed.
 
 (** * 5. Corollaries *)
 Theorem C06_const_readable :
@@ -219,6 +294,15 @@ Theorem C06_const_readable :
     (forall p, in_dims (dims (hdr_of r)) p -> den vnone r k p = v) ->
     lookup_e r k = Some (GConst, [v]) /\ getitem r k = Ok v.
 Proof. exact @const_readable. Qed.
+
+(** [ex_c_es]: the same constant 7 stored as global const / per volume / per slice in three 4-D sources, merged along the
+    vector axis *)
+Example C06_const_readable_example :
+  exists r, from_sequence Nat.eqb 0 ex_c_es 4 None None = Ok r /\
+            canonical_mod_none 0 r /\ 7 <> 0 /\
+            (forall p, in_dims (dims (hdr_of r)) p -> den 0 r kK p = 7) /\
+            lookup_e r kK = Some (GConst, [7]) /\ getitem r kK = Ok 7.
+Proof. exact ex_const_readable. Qed.
 
 (** in terms of the SOURCES (C03's denotation of the merge): a value identical, and not None, in every source at every
     position is a global constant of the merged extension, readable without an index
@@ -232,23 +316,18 @@ Theorem C06_merge_const_readable :
     axis_of (out_sdim sd e0) dim = Some ax -> (3 <= dim -> out_sdim sd e0 <> None) ->
     from_sequence veqb vnone es dim a sd = Ok r -> trailing1b (shape (hdr_of r)) = false ->
     v <> vnone ->
-    (forall x q, In x es -> den_in vnone (hdr_of r) x k q = v) ->
+    (forall x q, In x es -> in_dims (dims (hdr_of x)) q -> den_in vnone (hdr_of r) x k q = v) ->
     lookup_e r k = Some (GConst, [v]) /\ getitem r k = Ok v.
 Proof. exact @merge_const_readable. Qed.
 
-(** non-vacuity: the same constant stored three different ways in three sources *)
-Definition ex_c_h : hdr := mk_hdr [1; 1; 2; 2] (Some 2) ex_aff true false.
-Definition ex_c_es : list (ext nat) :=
-  [mk_ext ex_c_h [([107]%N, (GConst, [7]))]; mk_ext ex_c_h [([107]%N, (TSamples, [7; 7]))];
-   mk_ext ex_c_h [([107]%N, (GSlices, [7; 7; 7; 7]))]].
 Example C06_merge_const_readable_example :
-  exists r, from_sequence Nat.eqb 0 ex_c_es 4 None None = Ok r /\ getitem r [107]%N = Ok 7 /\
-            shape (hdr_of r) = [1; 1; 2; 2; 3] /\ trailing1b (shape (hdr_of r)) = false /\
-            (forall e, In e ex_c_es -> validb e = true /\ nondegenerateb e = true).
-Proof.
-  eexists. split; [vm_compute; reflexivity|]. do 3 (split; [reflexivity|]).
-  intros x [<-|[<-|[<-|[]]]]; split; vm_compute; reflexivity.
-Qed.
+  exists r, from_sequence Nat.eqb 0 ex_c_es 4 None None = Ok r /\
+            inputs_ok ex_c_es ex_c_e0 None /\ (forall x, In x ex_c_es -> nondegenerate x) /\
+            axis_of (out_sdim None ex_c_e0) 4 = Some AxV /\ (3 <= 4 -> out_sdim None ex_c_e0 <> None) /\
+            trailing1b (shape (hdr_of r)) = false /\ 7 <> 0 /\
+            (forall x q, In x ex_c_es -> in_dims (dims (hdr_of x)) q -> den_in 0 (hdr_of r) x kK q = 7) /\
+            lookup_e r kK = Some (GConst, [7]) /\ getitem r kK = Ok 7.
+Proof. exact ex_merge_const_readable. Qed.
 
 (** "None everywhere" keys: absent, or the global constant None - never in a varying class *)
 Theorem C06_none_dropped_partial :
@@ -257,6 +336,13 @@ Theorem C06_none_dropped_partial :
     (forall p, in_dims (dims (hdr_of r)) p -> den vnone r k p = vnone) ->
     lookup_e r k = None \/ lookup_e r k = Some (GConst, [vnone]).
 Proof. exact @none_only_const. Qed.
+
+(** the piece of [ex_e] on which the key is None everywhere keeps it, as the global constant None (0 here) *)
+Example C06_none_dropped_partial_example :
+  exists r, get_subset Nat.eqb 0 ex_e 2 0 = Ok r /\ canonical_mod_none 0 r /\
+            (forall p, in_dims (dims (hdr_of r)) p -> den 0 r kK p = 0) /\
+            (lookup_e r kK = None \/ lookup_e r kK = Some (GConst, [0])) /\ lookup_e r kK = Some (GConst, [0]).
+Proof. exact ex_none. Qed.
 
 Theorem C06_none_dropped_refuted :
   exists (es : list (ext nat)) dim r k,
@@ -274,9 +360,13 @@ Theorem C06_per_volume :
     length vs <= snd (fst (dims (hdr_of r))) * snd (dims (hdr_of r)).
 Proof. exact @per_volume. Qed.
 
-(** non-vacuity of the corollaries: the merge example above is per-volume constant and not constant *)
-Example C06_corollaries_example :
-  exists r, from_sequence Nat.eqb 0 ex_m_es 3 None None = Ok r /\
-            lookup_e r [107]%N = Some (TSamples, [7; 7; 8]) /\ getitem r [107]%N = Err EKey /\
-            den 0 r [107]%N (0, 2, 0) = 8 /\ den 0 r [107]%N (1, 2, 0) = 8.
-Proof. eexists. split; [vm_compute; reflexivity|]. repeat split; reflexivity. Qed.
+(** the time merge above: constant within every volume, different between volumes *)
+Example C06_per_volume_example :
+  exists r, from_sequence Nat.eqb 0 ex_m_es 3 None None = Ok r /\ canonical_mod_none 0 r /\
+            lookup_e r kK = Some (TSamples, [7; 7; 8]) /\
+            (forall s s' t v, in_dims (dims (hdr_of r)) (s, t, v) -> in_dims (dims (hdr_of r)) (s', t, v) ->
+                              den 0 r kK (s, t, v) = den 0 r kK (s', t, v)) /\
+            den 0 r kK (0, 2, 0) = 8 /\ den 0 r kK (1, 0, 0) = 7 /\
+            is_slices TSamples = false /\ length [7; 7; 8] = mult_spec (dims (hdr_of r)) TSamples /\
+            length [7; 7; 8] <= snd (fst (dims (hdr_of r))) * snd (dims (hdr_of r)).
+Proof. exact ex_per_volume. Qed.
